@@ -167,6 +167,7 @@ def _install_recorders(events: List[Dict[str, Any]], buf: io.StringIO, expr_faul
     from pydoctor import model, epydoc2stan
     from pydoctor.templatewriter import pages
     orig_msg, orig_re, orig_h2s = model.System.msg, epydoc2stan.reportErrors, pages.html2stan
+    orig_reparent = model.Documentable.reparent
     depth = {"re": 0}
     box: Dict[str, Any] = {}
 
@@ -196,13 +197,22 @@ def _install_recorders(events: List[Dict[str, Any]], buf: io.StringIO, expr_faul
             raise ValueError("injected: signature cannot be rendered")
         return orig_h2s(html)
 
+    def reparent(self, new_parent, new_name):
+        old = self.fullName()
+        r = orig_reparent(self, new_parent, new_name)
+        events.append({"op": "move", "o": old, "to": self.fullName(), "v": self.system.violations,
+                       "perr": sum(len(v) for v in self.system.parse_errors.values())})
+        return r
+
     model.System.msg = msg
+    model.Documentable.reparent = reparent
     epydoc2stan.reportErrors = reportErrors
     if expr_fault:
         pages.html2stan = html2stan
 
     def undo():
         model.System.msg, epydoc2stan.reportErrors, pages.html2stan = orig_msg, orig_re, orig_h2s
+        model.Documentable.reparent = orig_reparent
     return undo, box
 
 
@@ -269,11 +279,12 @@ def exit_project(root: str, run: Dict[str, Any]) -> Tuple[str, int, bool]:
     """Write the project of an enumerated ExitStatus run. Returns (package dir, planted problem count, expr fault)."""
     pkg = os.path.join(root, "pkg")
     os.makedirs(pkg, exist_ok=True)
-    Path(pkg, "__init__.py").write_text('"""Pkg."""\n')
     planted = 0
     expr = False
+    reexported: List[Tuple[int, str]] = []
     for i, c in enumerate(run["cfg"], 1):
         epy = c["fmt"] == "epy"
+        shape = c.get("shape", "func")
         body = ["Summary line.", ""]
         if c["xref"]:
             body += ["Para with %s." % ("L{nosuch.name}" if epy else "`nosuch.name`"), ""]
@@ -284,8 +295,12 @@ def exit_project(root: str, run: Dict[str, Any]) -> Tuple[str, int, bool]:
         if c["field"]:
             body += ["@unknownfield: text" if epy else ":unknownfield: text"]
             planted += 1
-        src = ['"""Module."""', "import re", '__docformat__ = "%s"' % ("epytext" if epy else "restructuredtext"), "",
-               "def f(a%s):" % (", sigboom_param" if c["expr"] else ""), '    """'] + [("    " + b) if b else "" for b in body] + ['    """', ""]
+        doc = ['    """'] + [("    " + b) if b else "" for b in body] + ['    """']
+        head = ['"""Module."""', "import re", '__docformat__ = "%s"' % ("epytext" if epy else "restructuredtext"), ""]
+        if shape == "func":
+            src = head + ["def f(a%s):" % (", sigboom_param" if c["expr"] else "")] + doc + [""]
+        else:       # the problems sit in the class's own docstring
+            src = head + ["class K%d:" % i] + doc + ["    def meth(self, a):", '        """Method."""', ""]
         if c["expr"]:
             planted += 1
             expr = True
@@ -294,7 +309,15 @@ def exit_project(root: str, run: Dict[str, Any]) -> Tuple[str, int, bool]:
             planted += 1
         text = "\n".join(src) + "\n"
         compile(text, "m", "exec")
-        Path(pkg, "m%d.py" % i).write_text(text)
+        if shape == "reexp":      # private implementation module, class re-exported by the package
+            Path(pkg, "_impl%d.py" % i).write_text(text)
+            reexported.append((i, "K%d" % i))
+        else:
+            Path(pkg, "m%d.py" % i).write_text(text)
+    init = ['"""Pkg."""'] + ["from ._impl%d import %s" % (i, k) for i, k in reexported]
+    if reexported:
+        init.append("__all__ = [%s]" % ", ".join(repr(k) for _, k in reexported))
+    Path(pkg, "__init__.py").write_text("\n".join(init) + "\n")
     return pkg, planted, expr
 
 
@@ -372,7 +395,8 @@ CONSTRAINT Emit
 
 
 def exit_cfg(source: str, objs: str, rich: str, interleave: bool) -> str:
-    inv = "INVARIANT EveryReportCounted\nINVARIANT ExitW\nINVARIANT ExitNoW\nINVARIANT NothingLost\n"
+    inv = ("INVARIANT EveryReportCounted\nINVARIANT ExitW\nINVARIANT ExitNoW\nINVARIANT NothingLost\n"
+           + ("INVARIANT StaleStillCounts\n" if source == "enum" else ""))
     tail = "CONSTRAINT EmitTerminal\n" if source == "enum" else "CONSTRAINT Accept\nPOSTCONDITION Post\n"
     return f"""SPECIFICATION Spec
 CONSTANTS Source = "{source}"
@@ -515,7 +539,7 @@ def run(ctx: Ctx) -> int:
             ctx.violation({"invariant": bad[0], "failed": bad, "run": x,
                            "observed": {"exit": er["rc"], "violations": er["violations"], "problem_lines": er["nprob"]},
                            "expected": {"planted": er["planted"], "unparsed": er["planted_unparsed"]},
-                           "key": "exit:%s:W=%s:%s" % (bad, er["W"], sorted(k for c in x["cfg"] for k, v in c.items() if v and k != "fmt"))})
+                           "key": "exit:%s:W=%s:%s" % (bad, er["W"], sorted(str(k) + ("=" + v if k == "shape" else "") for c in x["cfg"] for k, v in c.items() if v and k != "fmt"))})
         if (er["rc"], er["violations"], er["nprob"]) != (x["exit"], x["violations"], x["printed"]):
             exit_drift += 1
             ctx.drift_note({"run": x, "real": {"exit": er["rc"], "violations": er["violations"], "printed": er["nprob"]}})
